@@ -200,6 +200,7 @@ impl ChunkIndex {
             .filter_map(|(hash, cd)| {
                 let mut cd = cd.clone();
                 if let Some(ChunkLocation { offsets, size }) = self.get(hash) {
+                    let offsets_before = cd.offsets.len();
                     // For each chunk present in both target and source we compare the offsets and remove
                     // any offset which is present in both from the target.
                     offsets.iter().for_each(|remove_offset| {
@@ -208,7 +209,7 @@ impl ChunkIndex {
                             .position(|offset| *offset == *remove_offset)
                             .map(|pos| cd.offsets.remove(pos));
                     });
-                    let offsets_in_place = offsets.len() - cd.offsets.len();
+                    let offsets_in_place = offsets_before - cd.offsets.len();
                     num_alread_in_place += offsets_in_place;
                     total_size += (*size * offsets_in_place) as u64;
                     if cd.offsets.is_empty() {
